@@ -132,6 +132,16 @@ def build_cases(tier):
                           I(f'return len(_ret) == {m} and all(0 <= c < {n} for c in _ret) and len(set(_ret)) == {m} '
                             f'and _rank_perm_prefix(_ret, {n}) == j'),
                           info={'fn': 'compute_jth_permutation_prefix', 'n': n, 'm': m, 'N': N}, timeout=None))
+    # large indices (beyond 2^53): the inversion sequence is mixed-radix arithmetic without branching, so one path
+    # covers the whole range
+    for k, (n, m) in enumerate([(20, 20), (25, 25), (30, 17), (40, 12)]):
+        N = math.perm(n, m)
+        radices = list(range(n, n - m, -1))
+        cases.append(Case(f'inversion_{k}', 'j: int', I(f'return C.compute_jth_inversion_sequence({n}, {m}, j)'),
+                          I(f'return 0 <= j < {N}'),
+                          I(f'return len(_ret) == {m} and all(0 <= c < r for c, r in zip(_ret, {radices!r})) '
+                            f'and _rank_mixed(_ret, {radices!r}) == j'),
+                          info={'fn': 'compute_jth_inversion_sequence', 'n': n, 'm': m, 'N': N}))
     for memo_mode in ('fresh', 'primed'):
         for k, (q, m, first_n) in enumerate(T['copies']):
             caps = [m] * q
